@@ -33,7 +33,11 @@ theorem foreign_cell_noop (n : Node) (src : Nat) (c : Cell B) (ch : Choice) (h :
       | some e => simp only [he] at h; simp [hp, h]
       | none =>
         cases hc : get n.circuits c.cid with
-        | some circ => simp only [he, hc] at h; simp [hp, h]
+        | some circ =>
+          simp only [he, hc] at h
+          cases h with
+          | inl h0 => simp [hp, h0]
+          | inr h1 => simp [hp, h1]
         | none => simp [hp]
     simp [this]
 
@@ -409,11 +413,11 @@ theorem decryptAll_encryptAll (L : AeadLaws A) (d : Dir) (ks : List Nat) (b : B)
     labelled with this circuit's id -/
 theorem originator_step (L : AeadLaws A) (n : Node) (ch : Choice) (cid : Nat) (re : Bool) (circ : Circ) (fh : Hop)
     (org tag : Nat) (hr : get n.relays cid = none) (he : get n.exits cid = none)
-    (hc : get n.circuits cid = some circ) (hf : circ.firstHop = some fh) :
+    (hc : get n.circuits cid = some circ) (hf : circ.firstHop = some fh) (hne : circ.hops ≠ []) :
     (processCell A n fh.addr
         ⟨cid, false, re, encryptAll A .bwd (circ.hops.map Hop.key) (A.plain (.data 0 org tag))⟩ ch).2 =
       [Out.rawIn cid org tag] := by
-  simp [processCell, hr, inCrypto, he, hc, decryptAll_encryptAll A L, L.parse_plain, Msg.isExtend, Msg.noCrypto,
+  simp [processCell, hr, inCrypto, he, hc, hne, decryptAll_encryptAll A L, L.parse_plain, Msg.isExtend, Msg.noCrypto,
     handle, onData, hf]
 
 
